@@ -455,4 +455,14 @@ EXPLANATION = EXPLANATION + " (R7) the datagram codec returns each message of a 
 
 EXPLANATION = EXPLANATION + " (R1, as built) the reader half is decided by partial evaluation of FragmentSender.parsePayload on fragments framed with the writer's own prefix format: it returns (id, index, count, the bytes behind the prefix)."
 
-RULES = [("C06.R1", r1), ("C06.R2", r2), ("C06.R3", r3), ("C06.R4", r4), ("C06.R5", r5), ("C06.R6", r_enum), ("C06.R7", r7)]
+def r_shared_r8(ctx):
+    """every queued fragment is sent or stays queued (shared C09.R3, C09.R5): the packing loop removes from the queue exactly the messages it packed - a fragment skipped for lack of room and then deleted never reaches the peer and the message is never reassembled"""
+    from . import c09 as _m
+    from .c02 import _Sub
+    for _f in ['r3', 'r5']:
+        getattr(_m, _f)(_Sub(ctx, "C06.R8"))
+
+
+EXPLANATION = EXPLANATION + ' (R8) the packing loop removes from the queue exactly the messages it packed (shared C09.R3, C09.R5): a fragment that is skipped for lack of room and deleted all the same is never transmitted, and reassembly never completes.'
+
+RULES = [("C06.R1", r1), ("C06.R2", r2), ("C06.R3", r3), ("C06.R4", r4), ("C06.R5", r5), ("C06.R6", r_enum), ("C06.R7", r7), ("C06.R8", r_shared_r8)]
